@@ -486,6 +486,11 @@ TCrash ==
                       e.mode \o ":" \o kind \o ":" \o e.point)
           /\ (~PendingOp(kind)) =>
                 Check(rec.spendable >= e.base_pre[w].spendable, "C06", "RecoverByCancel", e, e.mode \o ":" \o kind)
+     \* C15: the key handed out right after the interruption (a coinbase request) was never used
+     \* before - neither in the state the operation started from nor in what it left behind
+     /\ (Readable(e.obs.w[w]) /\ e.next_key # "") =>
+          Check(e.next_key \notin (aux.hvpre.issued[w] \cup KeysOf(pre, w) \cup KeysOf(O, w)), "C15", "PathsUniqueAfterCrash", e,
+                e.mode \o ":" \o kind \o ":" \o e.point)
      /\ IF ~CheckM THEN TRUE
         ELSE LET r == OpR(aux.ope, pre, st)
                  exp == IF e.k = 1 THEN pre ELSE r.steps[e.k - 1] IN
